@@ -39,7 +39,7 @@ class LifeWorld(object):
         self.bus = SimBus(self.plugin, on_deliver=self.on_deliver)
         self.comm = RecComm()
         self.life = LifecycleModel()
-        self.life.clear_after = bool(seams.SETTINGS.get(["plugins", "excluderegion", "clearRegionsAfterPrintFinishes"]))
+        self.life.clear_after = bool(self.plugin._settings.get_boolean(["clearRegionsAfterPrintFinishes"]))
         self.viol = None
         self.log = []
         self.stats = Counter()
@@ -78,8 +78,7 @@ class LifeWorld(object):
         regs_before, snap_before, act_before = self._before
         was_active = self.life.active
         if ev == Events.SETTINGS_UPDATED:
-            self.life.clear_after = bool(seams.SETTINGS.get(
-                ["plugins", "excluderegion", "clearRegionsAfterPrintFinishes"]))
+            self.life.clear_after = bool(self.plugin._settings.get_boolean(["clearRegionsAfterPrintFinishes"]))
         res = self.life.on_event(ev)
         self.log.append(["ev", ev, exc, self.plugin.isActivePrintJob, self.region_ids()])
         if exc is not None:
@@ -262,7 +261,7 @@ def gen_life(rng):
                         "name": rng.choice(["afterPrintDone", "afterPrintDone", "beforePrintStarted",
                                             "afterPrintCancelled", "afterPrintPaused"])})
         elif r < 0.94:
-            st = {"clearRegionsAfterPrintFinishes": rng.random() < 0.5}
+            st = {"clearRegionsAfterPrintFinishes": rng.choice([True, False, True, False, "false", "true", "no", 0, 1])}
             if rng.random() < 0.15:
                 st["atCommandActions"] = [{"command": "ExcludeRegion", "parameterPattern": "(unclosed",
                                            "action": "disable_exclusion", "description": "bad"}]
